@@ -21,8 +21,10 @@ def _to_list(val: Union['Task', Iterable['Task']]) -> List['Task']:
 
 
 def _find_root(task: 'Task'):
-    if task.parent is not None:
-        return _find_root(task.parent)
+    # noinspection PyProtectedMember
+    parent = task._raw_parent()
+    if parent is not None:
+        return _find_root(parent)
     return task
 
 
@@ -41,10 +43,13 @@ def _has_id_intersection(parent: 'Task', children: Iterable['Task']):
         all_children_tasks += _collect_subtree(ch)
 
     parent_tree_object_ids = set([id(t) for t in parent_tree])
-    new_tasks = [t for t in all_children_tasks if id(t) not in parent_tree_object_ids]
+    new_tasks = _unique_objects([t for t in all_children_tasks if id(t) not in parent_tree_object_ids])
 
     if len(new_tasks) == 0:
         return False
+
+    if len(set([t.id for t in new_tasks])) != len(new_tasks):
+        return True
 
     parent_tree_ids = set([t.id for t in parent_tree])
     new_task_ids = set([t.id for t in new_tasks])
@@ -685,6 +690,9 @@ class Task:
         self.__wbs = wbs
         for ch in self.children:
             ch._attach(wbs)
+
+    def _raw_parent(self):
+        return self.__parent
 
     def _detach(self):
         self.__wbs = None
